@@ -213,18 +213,12 @@ Proof.
   intros HN Hr Hq c'. pose proof (quiescence_stable N c sched HN Hr Hq) as Hq'. fold c' in Hq'.
   assert (Hr' : reach N c'). { destruct Hr as (s0 & ->). exists (s0 ++ sched). unfold c', run. rewrite fold_left_app. reflexivity. }
   split; [auto|split].
-  - (* conservation pins the counters: sums cannot move while nothing is in flight, and each counter is monotone *)
-    destruct (reach_good N c HN Hr) as (HNP & (g & HI) & _). destruct (reach_good N c' HN Hr') as (HNP' & (g' & HI') & _).
-    pose proof (msteps_monotone _ _ (run_msteps c sched)) as Hmono. fold c' in Hmono.
-    assert (Hz : forall d, quiescent N d -> NP d = N -> forall gg, Inv d gg -> bsum N (fun i => sent (P d i)) = bsum N (fun i => recv (P d i))).
-    { intros d Hd Hnd gg HId. pose proof (I_cons _ _ HId) as Hc. rewrite Hnd in Hc.
-      rewrite (bsum_ext N (fun i => infl (P d i)) (fun _ => 0)), (bsum_ext N (fun i => inproc (P d i)) (fun _ => 0)), bsum_zero in Hc;
-        try (intros i Hi; apply (Hd i Hi)). lia. }
-    pose proof (Hz c Hq HNP g HI) as Z1. pose proof (Hz c' Hq' HNP' g' HI') as Z2.
-    (* sum of (sent' - sent) + (recv' - recv) ... use: S' >= S, R' >= R pointwise; need equality: use in-flight argument *)
+  - (* every micro-step from a quiescent configuration keeps sent and recv: only send and receive-end change them *)
+    destruct (reach_good N c HN Hr) as (HNP & (g & HI) & _).
+    assert (HNP' : NP c' = N) by (unfold c'; rewrite (NP_msteps _ _ (run_msteps c sched)); auto).
     assert (Hsame : forall j, (j < N)%nat -> recv (P c' j) = recv (P c j) /\ sent (P c' j) = sent (P c j)).
-    { (* every micro-step from a quiescent configuration keeps sent and recv: only send and receive-end change them *)
-      clear Z1 Z2 Hz. revert g HI Hq HNP. clear Hr Hr' Hq' HNP' g' HI' Hmono. unfold c'. clear c'.
+    {
+      revert g HI Hq HNP. clear Hr Hr' Hq' HNP'. unfold c'. clear c'.
       pose proof (run_msteps c sched) as Hms. induction Hms as [d|d d1 d2 Hs Hms IH]; intros g HI Hq HNP; [auto|].
       assert (Hw : forall j, (j < NP d)%nat -> quietw (P d j)).
       { intros j Hj. destruct (Hq j ltac:(lia)) as (A & _ & _ & B & C). unfold quietw, busy_or_nr. destruct A as [-> | [-> | ->] ]; auto. }
